@@ -20,6 +20,9 @@ func init() {
 	reg("C10", "C10.R3", "E1", "spread routing requires a reordering Commit", 1, ruleSpreadNeedsOrdering)
 	reg("C10", "C10.R4", "E7", "topic index = position in config.Topics on both sides", 1, ruleTopicIndex)
 	reg("C10", "C10.R5", "E1", "offsets are marked only by InputPlugin.Commit", 1, ruleWhoMarks)
+	reg("C10", "C10.R6", "E6", "an event carries the offset and leader epoch of the very record whose value it carries", 1, ruleConsumeIdentity)
+	reg("C10", "C10.R8", "E1", "only the output acknowledgement reaches InputPlugin.Commit: discards and holds never mark (same rule as C01.R2)", 4, ruleNotifyCallers)
+	reg("C10", "C10.R7", "E1", "only marked offsets reach the broker: AutoCommitMarks, and CommitMarkedOffsets as the only explicit commit", 2, ruleOnlyMarkedCommitted)
 }
 
 type packFn struct {
@@ -322,4 +325,103 @@ func ruleWhoMarks(c *Ctx, r *Rule) {
 		r.Ob(fn == cm, c.fnName(fn)+"|mark", ci.Pos(), "offsets are marked for commit only by the acknowledgement path (InputPlugin.Commit): a mark made while consuming passes records that are still in the pipeline")
 	})
 	r.Inst(n)
+}
+
+const kgoPkg = "github.com/twmb/franz-go/pkg/kgo"
+
+// ruleConsumeIdentity: the event handed to the pipeline carries the identity of the record whose
+// value it carries: offset and leader epoch of that same record (per record, not per fetch).
+func ruleConsumeIdentity(c *Ctx, r *Rule) {
+	ro := c.roles()
+	pack := c.Func("plugin/input/kafka", "assembleOffset")
+	if ro.ctlIn == nil || pack == nil {
+		r.Unresolved("InputPluginController.In / assembleOffset")
+		return
+	}
+	n := 0
+	for _, fn := range c.ModFuncs {
+		if c.pkgOf(fn) != "plugin/input/kafka" {
+			continue
+		}
+		for _, ci := range callsIn(fn) {
+			cc := ci.Common()
+			if !cc.IsInvoke() || cc.Method.Name() != "In" || !(cc.Method == ro.ctlIn || types.Identical(sigNoRecv(cc.Method), sigNoRecv(ro.ctlIn))) {
+				continue
+			}
+			n++
+			r.Inst(1)
+			key := fmt.Sprintf("%s|in#%d", c.fnName(fn), n)
+			// data = rec.Value
+			o, f, rec, ok := loadedField(cc.Args[3])
+			okData := ok && f == "Value" && o != nil && o.Obj().Name() == "Record"
+			r.Ob(okData, key+"|data-is-record-value", ci.Pos(), "the data handed over is a record's value: "+c.path(cc.Args[3]))
+			if !okData {
+				continue
+			}
+			// offset = assembleOffset(rec) of the same record
+			okOff := false
+			desc := "offsets argument not built by pipeline.NewOffsets at the call"
+			if no, isCall := cc.Args[2].(*ssa.Call); isCall && no.Call.StaticCallee() != nil && no.Call.StaticCallee().Name() == "NewOffsets" {
+				desc = c.path(no.Call.Args[0])
+				if pc, isPack := stripConv(no.Call.Args[0]).(*ssa.Call); isPack && pc.Call.StaticCallee() == pack && len(pc.Call.Args) == 1 && pc.Call.Args[0] == rec {
+					okOff = true
+				}
+			}
+			r.Ob(okOff, key+"|offset-of-same-record", ci.Pos(), "the event's offset is assembleOffset(record) for the very record whose value is handed over (offset and leader epoch per record, not per fetch): "+desc)
+			// source id: assembleSourceID(topic index, partition)
+			okSrc := false
+			if sc, isCall := stripConv(cc.Args[0]).(*ssa.Call); isCall && sc.Call.StaticCallee() != nil && sc.Call.StaticCallee().Name() == "assembleSourceID" {
+				okSrc = true
+			}
+			r.Ob(okSrc, key+"|source-id-packed", ci.Pos(), "the source id is assembleSourceID(topic index, partition)")
+		}
+	}
+	r.Ob(n >= 1, "plugin/input/kafka|consumes", token.NoPos, "the kafka input hands records to the pipeline")
+}
+
+// ruleOnlyMarkedCommitted: what reaches the broker is only what was marked. The client commits
+// marks (AutoCommitMarks) and the only explicit commit is CommitMarkedOffsets.
+func ruleOnlyMarkedCommitted(c *Ctx, r *Rule) {
+	n := 0
+	c.eachCall(func(fn *ssa.Function, ci ssa.CallInstruction) {
+		if !c.inModule(fn) {
+			return
+		}
+		f := calleeFunc(ci)
+		if f == nil || f.Signature.Recv() == nil || !typeIs(f.Signature.Recv().Type(), kgoPkg, "Client") || !strings.HasPrefix(f.Name(), "Commit") {
+			return
+		}
+		if c.pkgOf(fn) != "plugin/input/kafka" {
+			return
+		}
+		n++
+		r.Inst(1)
+		r.Ob(f.Name() == "CommitMarkedOffsets", c.fnName(fn)+"|"+f.Name(), ci.Pos(), "the only explicit commit is CommitMarkedOffsets: committing 'uncommitted' or polled offsets passes records that are still unacknowledged in the pipeline")
+	})
+	// the client is configured to auto-commit marks only
+	marks, disabled := 0, 0
+	var newClient ssa.CallInstruction
+	c.eachCall(func(fn *ssa.Function, ci ssa.CallInstruction) {
+		if c.pkgOf(fn) != "plugin/input/kafka" {
+			return
+		}
+		f := calleeFunc(ci)
+		if f == nil || f.Pkg == nil || f.Pkg.Pkg.Path() != kgoPkg {
+			return
+		}
+		switch f.Name() {
+		case "AutoCommitMarks":
+			marks++
+		case "DisableAutoCommit":
+			disabled++
+		case "NewClient":
+			newClient = ci
+		}
+	})
+	r.Inst(1)
+	var pos token.Pos
+	if newClient != nil {
+		pos = newClient.Pos()
+	}
+	r.Ob(newClient != nil && (marks >= 1 || disabled >= 1), "plugin/input/kafka|auto-commit-marks-only", pos, fmt.Sprintf("the consumer client auto-commits marked offsets only (AutoCommitMarks option present: %d; otherwise every polled offset is committed by the auto-commit loop)", marks))
 }
